@@ -11,6 +11,12 @@
 #define MAX(a, b)	((a) < (b) ? (b) : (a))
 #define LEN(a)		(sizeof(a) / sizeof((a)[0]))
 
+#ifdef NEATVI_VERIF
+int verif_re_cuts;	/* branches cut by the NDEPT recursion limit */
+int verif_re_alloc;	/* instructions reserved by the last regcomp() */
+int verif_re_used;	/* instructions emitted by the last regcomp() */
+#endif
+
 /* regular expressions atoms */
 #define RA_CHR		'\0'	/* character literal */
 #define RA_BEG		'^'	/* string start */
@@ -553,6 +559,10 @@ int regcomp(regex_t *preg, char *pat, int flg)
 	mark = re_insert(re, RI_MARK);
 	re->p[mark].mark = 1;
 	mark = re_insert(re, RI_MATCH);
+#ifdef NEATVI_VERIF
+	verif_re_alloc = n;
+	verif_re_used = re->n;
+#endif
 	rnode_free(rnode);
 	re->flg = flg;
 	*preg = re;
@@ -573,6 +583,10 @@ void regfree(regex_t *preg)
 static int re_rec(struct regex *re, struct rstate *rs)
 {
 	struct rinst *ri = NULL;
+#ifdef NEATVI_VERIF
+	if (rs->dep >= NDEPT)
+		verif_re_cuts++;
+#endif
 	if (rs->dep >= NDEPT)
 		return 1;
 	rs->dep++;
